@@ -114,9 +114,10 @@ func (c *Cache) addArchetype(arch *archetype) {
 		if rf, ok := e.Filter.(*RelationFilter); ok {
 			if rf.Target == arch.RelationTarget {
 				e.Archetypes.Add(arch)
-				// Not required: can't add after removing,
-				// as the target entity is dead.
-				// if e.Indices != nil { e.Indices[arch] = int(e.Archetypes.Len() - 1) }
+				// Required: after World.Reset, the same target entity can be issued again.
+				if e.Indices != nil {
+					e.Indices[arch] = int(e.Archetypes.Len() - 1)
+				}
 			}
 			continue
 		}
